@@ -1,5 +1,6 @@
 import IrVerif.Drive.Util
-import IrVerif.Model.Journal
+import IrVerif.Drive.Kernel
+import IrVerif.Model.JournalKernel
 /-! Protocol handler for the journaling model (C20).
 
 `journal.slots`  : the static slot table (key, kind, operation, attr).
@@ -7,6 +8,14 @@ import IrVerif.Model.Journal
                    answers the table (wrapper layers + base per slot), the current journal, the
                    journals' previous links, captured tables and active flags after every step,
                    and whether the `__enter__` was refused.
+`journal.meta`   : the installed table entry by entry: key, class, attribute, how it is installed,
+                   wrapper kind, operation, attribute, and the order-of-effects flags computed by
+                   running `runImpl` on a probe configuration.
+`journal.details`: the `details` string of a slot on an environment of reprs.
+`journal.entry`  : the fields (name, Python type) of the entry a wrapper writes, and the instances
+                   it references strongly.
+`journal.kernel` : a C01-kernel history (optionally from some position on inside nested journals):
+                   the model's call tree of every call, and the journaled run.
 `journal.run`    : a block program whose instrumented calls are scripted call trees (what the
                    original functions did in an un-journaled run); answers outcomes, the ghost
                    trace, every journal's entries, the final table and current journal.
@@ -130,6 +139,77 @@ def handle : Handler := fun m j =>
   | "journal.slots" => some do
       return obj [("r", Json.arr (slots.map (fun s =>
         Json.arr #[Json.str s.key, Json.str (kindStr s.kind), Json.str s.op, Json.str s.attr])).toArray)]
+  | "journal.meta" => some do
+      return obj [("r", Json.arr ((List.range nSlots).map (fun k =>
+        let s := slots.getD k ⟨"", .method, "", ""⟩
+        let m := metaOf k
+        obj [("key", Json.str s.key), ("meta_key", Json.str m.key), ("cls", Json.str m.cls),
+             ("attr", Json.str m.attr), ("install", Json.str m.install.str), ("kind", Json.str (kindStr s.kind)),
+             ("op", Json.str s.op), ("target", Json.str s.attr),
+             ("details_none", toJson (decide (m.details = .none))),
+             ("details_before", toJson (detailsBefore k)), ("record_after", toJson (recordAfter k)),
+             ("returns_result", toJson (returnsResult k)), ("records_self", toJson (recordsSelf k))])).toArray),
+        ("n_meta", toJson slotMeta.length)]
+  | "journal.details" => some do
+      let k ← getNat j "k"
+      let e ← j.getObjVal? "env"
+      let strMap := fun (key : String) (a : String) =>
+        match (e.getObjVal? key) with
+        | .ok m => (m.getObjValAs? String a).toOption.getD ""
+        | .error _ => ""
+      let args := (e.getObjValAs? (Array Json) "args").toOption.getD #[]
+      let argField := fun (i : Nat) (f : String) => match args[i]? with
+        | some a => (a.getObjValAs? String f).toOption
+        | none => none
+      let env : DEnv := {
+        reprSelf := (e.getObjValAs? String "reprSelf").toOption.getD ""
+        className := (e.getObjValAs? String "className").toOption.getD ""
+        attrRepr := strMap "attrRepr"
+        attrStr := strMap "attrStr"
+        attrLen := fun a => match (e.getObjVal? "attrLen") with
+          | .ok m => (m.getObjValAs? Nat a).toOption.getD 0
+          | .error _ => 0
+        argRepr := fun i => argField i "repr"
+        argStr := fun i => argField i "str"
+        argIsGraph := fun i => match args[i]? with
+          | some a => (a.getObjValAs? Bool "isGraph").toOption.getD false
+          | none => false
+        argNameRepr := fun i => (argField i "nameRepr").getD "" }
+      let d := detailsOf k env
+      let ent := recordSlot k 5 env.className 0 [⟨"f.py", 1, "g", "x"⟩] env
+      return obj [("details", match d with | some s => Json.str s | none => Json.null),
+        ("fields", Json.arr (ent.fields.map (fun p => Json.arr #[Json.str p.1, Json.str p.2.tyName])).toArray),
+        ("strong", natsJ (ent.fields.flatMap (fun p => p.2.strong))),
+        ("core_ok", toJson (decide (ent.core k = some (mkEntry k 5))))]
+  | "journal.kernel" => some do
+      let fuel ← getNat j "fuel"
+      let nj ← getNat j "nj"
+      let ops ← (← getArr j "ops").mapM IrVerif.Drive.Kernel.parseAny
+      let from_ ← getNat j "from"
+      let nest ← getNats j "nest"
+      let pre := ops.take from_
+      let post := ops.drop from_
+      let kb : KBlk := .seq (.ops pre) (nest.foldr (fun jid b => .withJ jid b) (.ops post))
+      let l0J := fun (c : L0) => Json.arr #[toJson c.slot, toJson c.self, toJson c.ok, Json.arr #[]]
+      let l1J := fun (c : L1) => Json.arr #[toJson c.slot, toJson c.self, toJson c.ok, Json.arr (c.kids.map l0J).toArray]
+      let l2J := fun (c : L2) => Json.arr #[toJson c.slot, toJson c.self, toJson c.ok, Json.arr (c.kids.map l1J).toArray]
+      let rec trees (w : KW) : List IrVerif.Kernel.AnyOp → List Json
+        | [] => []
+        | op :: rest => Json.arr ((callTree w op).map l2J).toArray :: trees (IrVerif.Kernel.stepAny w op).1 rest
+      let r := runBlock kCfg fuel kb.toBlock (initialWorld { w := IrVerif.Kernel.World.empty })
+      return obj [("trees", Json.arr (trees IrVerif.Kernel.World.empty ops).toArray),
+        ("log", Json.arr (r.1.log.map outJ).toArray),
+        ("exc", optNatJ r.2),
+        ("trace", Json.arr (r.1.trace.map evJ).toArray),
+        ("entries", Json.arr ((List.range nj).map (fun i =>
+           Json.arr (((r.1.journals i).entries).map entryJ).toArray)).toArray),
+        ("expected", Json.arr ((List.range nj).map (fun i =>
+           Json.arr ((expectedFor kOwner i false r.1.trace).map entryJ).toArray)).toArray),
+        ("world_eq", toJson (decide (r.1.ir.w = histWorld IrVerif.Kernel.World.empty ops))),
+        ("log_eq", toJson (decide (r.1.log = histLog IrVerif.Kernel.World.empty ops))),
+        ("calls_eq", toJson (decide (r.1.trace.filter isCall = histEvs IrVerif.Kernel.World.empty ops))),
+        ("table", tableJ r.1.table),
+        ("current", optNatJ r.1.current)]
   | "journal.ctl" => some do
       let nj ← getNat j "nj"
       let evs ← getArr j "evs"
@@ -144,7 +224,9 @@ def handle : Handler := fun m j =>
           | none => refused := true
           | some w1 => w := w1
         else
-          w := exit jid w
+          match (getNat e "fail").toOption with
+          | some n => w := exitFail jid n w
+          | none => w := exit jid w
         outs := outs.push (ctlStateJ w nj refused)
       return obj [("r", Json.arr outs)]
   | "journal.run" => some do
